@@ -40,6 +40,13 @@ struct SpecObs {
 }
 
 /// the two analyses the paths are run with
+/// insertion through `add_expr`, or (VERIF_SYN_ADD=1) through `add_syn_expr`: the same operation in
+/// the default build, the syntactic insertion path in the explanations build
+fn add_x<N: Analysis<T>>(eg: &mut EGraph<T, N>, ex: RecExpr<T>) -> AppliedId {
+    if *SYN_ADD.get_or_init(|| std::env::var("VERIF_SYN_ADD").map(|v| v == "1").unwrap_or(false)) { eg.add_syn_expr(ex) } else { eg.add_expr(ex) }
+}
+static SYN_ADD: std::sync::OnceLock<bool> = std::sync::OnceLock::new();
+
 trait AnKind: Analysis<T> + Default + 'static {
     const NAME: &'static str;
     fn datum(eg: &EGraph<T, Self>, id: Id) -> Option<(u64, u64)>;
@@ -205,7 +212,7 @@ impl<'a> PathRun<'a> {
             if path.first().map(|p| p.1).unwrap_or(false) { base.reverse(); }
             for t in base {
                 let ex = self.pool_expr(t);
-                match guard(|| eg.add_expr(ex)) {
+                match guard(|| add_x(&mut eg, ex)) {
                     Ok(h) => handles.push((ctx.pool_ui[t - 1], h)),
                     Err(p) => {
                         self.stats.panics += 1;
@@ -223,7 +230,7 @@ impl<'a> PathRun<'a> {
                 let (a, b) = if *flip { (b, a) } else { (a, b) };
                 for t in [a, b] {
                     let ex = self.pool_expr(t);
-                    match guard(|| eg.add_expr(ex)) {
+                    match guard(|| add_x(&mut eg, ex)) {
                         Ok(h) => handles.push((ctx.pool_ui[t - 1], h)),
                         Err(p) => {
                             self.stats.panics += 1;
@@ -247,8 +254,8 @@ impl<'a> PathRun<'a> {
             let ea = self.pool_expr(a);
             let eb = self.pool_expr(b);
             let r = guard(|| {
-                let ia = eg.add_expr(ea);
-                let ib = eg.add_expr(eb);
+                let ia = add_x(&mut eg, ea);
+                let ib = add_x(&mut eg, eb);
                 eg.union(&ia, &ib);
                 (ia, ib)
             });
@@ -804,7 +811,7 @@ impl<'a> PathRun<'a> {
             let before = (progress_of(eg), eg.total_number_of_nodes());
             let ex = if self.lazy { to_recexpr::<T>(&self.ctx.us[i], self.nm).unwrap() } else { self.us_exprs[i].clone() };
             let r = guard(|| {
-                let h = eg.add_expr(ex);
+                let h = add_x(eg, ex);
                 let same = eg.eq(&h, &found);
                 (h, same)
             });
